@@ -5,9 +5,11 @@ import (
 	"testing"
 
 	"verif/stats"
+	"verif/vk"
 )
 
 func TestMain(m *testing.M) {
+	vk.LocalZoneForShard()
 	rc := m.Run()
 	stats.WriteGlobal()
 	os.Exit(rc)
